@@ -43,6 +43,8 @@ Op ==
             /\ cold' = (IF k \in DOMAIN cold THEN Drop(cold, k) ELSE cold) /\ warm' = warm \ {k} /\ hot' = hot /\ viol' = {}
        [] Ev.kind = "remove" /\ Ev.ok /\ Ev.store = 1 ->
             /\ hot' = (IF k \in DOMAIN hot THEN Drop(hot, k) ELSE hot) /\ UNCHANGED <<cold, warm>> /\ viol' = {}
+       [] Ev.kind = "cool_down" /\ Ev.store = 0 ->      \* warm-ups do not outlive the command (or restore run) that asked for them
+            /\ warm' = {} /\ UNCHANGED <<cold, hot>> /\ viol' = {}
        [] Ev.kind = "warm_up" /\ Ev.store = 0 ->
             /\ warm' = warm \cup {k} /\ UNCHANGED <<cold, hot>> /\ viol' = {}
        [] Ev.kind \in {"read_full", "read_partial"} /\ Ev.store = 0 ->
